@@ -4,8 +4,8 @@ CONSTANTS
   Kinds = {"vargroup", "func", "opmethod", "stmt", "flit", "flitres"}
   Variants = {"plain", "lead", "trail"}
   FuncExprIsDecl = FALSE
-  ParenIsNesting = FALSE
-  ImportIsDecl = FALSE
-  TrailingCommentStays = FALSE
+  ParenIsNesting = TRUE
+  ImportIsDecl = TRUE
+  TrailingCommentStays = TRUE
 INVARIANTS WantIsStatement CodeKeepsBytes SplitSane CodeMeetsStatement Export
 PROPERTY Terminates
